@@ -123,6 +123,10 @@ class Interval(Module):
 
         transformed_tensor = (self._transform(tensor) * (self.upper_bound - self.lower_bound)) + self.lower_bound
 
+        # `t * (upper - lower) + lower` can round a few ulp past a finite bound when the transform saturates
+        if self.upper_bound.isfinite().all() and self.lower_bound.isfinite().all():
+            transformed_tensor = torch.min(torch.max(transformed_tensor, self.lower_bound), self.upper_bound)
+
         return transformed_tensor
 
     def inverse_transform(self, transformed_tensor: Tensor) -> Tensor:
